@@ -132,12 +132,12 @@ theorem stepTh_safe {s : State K} (hl : LiveP s) {th : Th K} (ht : ThOk h s th) 
   | dDecPut id k todo r =>
     simp only [stepTh]
     exact ⟨LiveP_chunks hl (mono_setRec s _ _), trivial, mono_setRec s _ _⟩
-  | gScan _ => exact absurd ht (by simp [ThOk])
+  | gScan _ _ => exact absurd ht (by simp [ThOk])
   | gGet _ _ => exact absurd ht (by simp [ThOk])
   | gDel _ _ _ => exact absurd ht (by simp [ThOk])
-  | fScanMeta => exact absurd ht (by simp [ThOk])
-  | fGetMeta _ _ => exact absurd ht (by simp [ThOk])
-  | fScanChunks _ => exact absurd ht (by simp [ThOk])
+  | fScanMeta _ _ => exact absurd ht (by simp [ThOk])
+  | fGetMeta _ _ _ => exact absurd ht (by simp [ThOk])
+  | fScanChunks _ _ => exact absurd ht (by simp [ThOk])
   | fGet _ _ => exact absurd ht (by simp [ThOk])
   | fDel _ _ _ => exact absurd ht (by simp [ThOk])
 
